@@ -20,6 +20,8 @@ CLAUSES = {
     "f": "QueryMatches returns exactly the matches whose text predicates hold (documented reading)",
     "g": "max_start_depth only reports unrestricted matches rooted at depth <= d",
     "h": "QueryCaptures with predicates agrees with QueryMatches with predicates",
+    "p": "a byte range and the point range of the same positions select the same matches and captures",
+    "u": "finished-state heap keeps the heap property (unit level)",
 }
 
 
@@ -121,6 +123,13 @@ def run(ctx):
     ]
     ctx.assumptions += ["documents < 4 GiB; generated queries capture every pattern root as @r (needed to decide clause b)"]
     ctx.regen()
+    # source anchor of the hand port `nodePrecedesRange` (commit 5d2fccd)
+    try:
+        src = open(os.path.join(os.environ.get("VERIF_REPO", "/repo"), "lib/src/query.c")).read()
+    except OSError:
+        src = ""
+    ctx.oblige("tie:anchor:ts_query_cursor__node_precedes_range", "ts_query_cursor__node_precedes_range(" in src,
+               "helper not found in lib/src/query.c: the hand port TsVerif.C11.nodePrecedesRange no longer corresponds")
     ctx.prove(["TsVerif.C11.Props"], "TsVerif/C11/Audit.lean")
     driver = ctx.build_driver("tsv-c11")
     explorer = ctx.cargo_bin("c11")
@@ -169,7 +178,7 @@ def run(ctx):
         pc["evaluated"] += 1
         n1 = int(kv.get("n1", "0") or 0)
         n2 = int(kv.get("n2", "0") or 0)
-        nontrivial = (clause in ("a", "h", "c") and n1 >= 2) or (clause in ("b", "g", "f") and n1 >= 2 and n1 != n2) or \
+        nontrivial = (clause in ("a", "h", "c", "p") and n1 >= 2) or (clause in ("b", "g", "f") and n1 >= 2 and n1 != n2) or \
                      (clause == "d" and (n1 != n2 or kv.get("exceeded") == "1")) or (clause == "e" and n1 != n2)
         if nontrivial:
             pc["nontrivial"] += 1
